@@ -1,0 +1,15 @@
+//go:build verif
+
+// Contracts for the fragment-level scan step (C12); comment-only, read by /verif/govc, never compiled into olric.
+//
+// The cursor protocol is the storage engine's: 0 means "this fragment is finished". The fragment step must hand
+// back exactly the cursor the engine returned, and every key the engine yielded; an empty page is not the end.
+
+package dmap
+
+//@ func (dm *DMap) scanOnFragment(f *fragment, cursor uint64, sc *ScanConfig) ([]string, uint64, error)
+//@   props C12
+//@   requires #args: f != nil && f.storage != nil && sc != nil
+//@   ensures #hands_back_the_engine_cursor [C12] internal: result.2 == nil ==> result.1 == cursor
+//@   ensures #hands_back_every_collected_key [C12] internal: result.2 == nil ==> len(result.0) == len(items) && (len(items) > 0 ==> base(result.0) == base(items))
+//@   ensures #error_means_nothing [C12] internal: result.2 != nil ==> result.2 == err && len(result.0) == 0 && result.1 == 0
